@@ -18,6 +18,8 @@ EXPLANATION = (
     "reset by clear; the backlog is merged when it exceeds max_backlog_size and before every read (C15's read rules); merge conserves "
     "mass (C16/C19 rules applied to the digest)."
 )
+from .common import NEW_WRITERS_NOTE as _NWN
+EXPLANATION = EXPLANATION + _NWN % "04"
 NOT_DECIDED = ("the bounds themselves: that a greedy merge under the one-unit criterion yields rank error within a small multiple of W and at most "
                "delta+3 centroids — the paper's argument from the criterion and the scale function, which the rules above only supply the premises of; "
                "floating-point rounding")
@@ -27,6 +29,8 @@ TI = "tdigest::TDigestInner"
 
 
 def run(ctx):
+    from .common import check_new_writers
+    check_new_writers(ctx, "R04-new-writers", ['tdigest::TDigest', 'tdigest::TDigestInner'])
     mg = structure_rules(ctx)
     if mg is None:
         return
